@@ -374,7 +374,7 @@ class Series:
             raise TypeError("only list-like objects are allowed to be passed to isin()")
         vv = np._cells(vals)
         vv = list(vals) if vv is None else vv
-        return self._new([E.sor(*[C_EQ(v, x) for x in vv]) for v in self._vals], dtype=None)
+        return self._new([E.sor(*[C_EQ(v, x) for x in vv]) for v in self._vals], dtype="bool")
 
     def between(self, lo, hi, inclusive="both"):
         return (self >= lo) & (self <= hi)
@@ -393,12 +393,12 @@ class Series:
 
     # -- missing data -----------------------------------------------------------
     def isna(self):
-        return self._new([is_na(v) for v in self._vals])
+        return self._new([is_na(v) for v in self._vals], dtype="bool")
 
     isnull = isna
 
     def notna(self):
-        return self._new([not is_na(v) for v in self._vals])
+        return self._new([not is_na(v) for v in self._vals], dtype="bool")
 
     notnull = notna
 
